@@ -166,6 +166,11 @@ class SimOps:
         if a_ctrl is None:
             a_ctrl = np.zeros((len(circuit.lines)+3, 3), dtype=np.int32)  # add 3 for zero, tmp, tmp2
             a_ctrl[:,0] = -1
+        elif len(a_ctrl) < len(circuit.lines)+3:  # given per line: add 'ignore' rows for zero, tmp, tmp2
+            a_ctrl_ext = np.zeros((len(circuit.lines)+3, 3), dtype=np.int32)
+            a_ctrl_ext[:,0] = -1
+            a_ctrl_ext[:len(a_ctrl)] = a_ctrl
+            a_ctrl = a_ctrl_ext
 
         # special locations and offsets in c_locs/c_caps
         self.zero_idx = len(circuit.lines)
